@@ -15,6 +15,11 @@ def countOnesNat : Nat → Nat → Nat
 /-- `uN::count_ones` (`N ≤ 128`) of a value of an unsigned type (non-negative by typing) -/
 def countOnes (x : Int) : Int := (countOnesNat 128 x.toNat : Nat)
 
+/-- `uN::to_le_bytes()` of an `n`-octet unsigned value: least significant octet first -/
+def leBytes : Nat → Int → List Int
+  | 0, _ => []
+  | n + 1, x => (x % 256) :: leBytes n (x / 256)
+
 end Rt
 
 -- (the generated units `open` the last component of every import)
